@@ -224,7 +224,8 @@ func c09Frozen(c *vrep.Ctx) {
 				}
 				if fault != "" {
 					msgs = append(msgs, fmt.Sprintf("classifier %d: %s", i, fault))
-				} else if h := vStateHash(cl, false); h != before[i] {
+				} else if h := vStateHash(cl, false); h != before[i] && !vPkgSynchronises {
+					// (code that locks may keep guarded state; the scheduler jobs judge it)
 					msgs = append(msgs, fmt.Sprintf("classifier %d: Match changed the classifier state", i))
 					before[i] = h
 				}
@@ -302,6 +303,22 @@ func c09FaultKey(m string) string {
 
 // ---- controlled schedules -----------------------------------------------------
 
+var c09BigDocCache []byte
+
+func c09BigDoc() []byte {
+	if c09BigDocCache == nil {
+		var sb strings.Builder
+		for i := 0; i < 4300; i++ {
+			fmt.Fprintf(&sb, "w%c%c%c ", 'a'+i%26, 'a'+(i/26)%26, 'a'+(i/676)%26)
+			if i%11 == 10 {
+				sb.WriteByte('\n')
+			}
+		}
+		c09BigDocCache = []byte(sb.String())
+	}
+	return c09BigDocCache
+}
+
 func c09Sched(c *vrep.Ctx) {
 	nthreads := c.ParamInt("threads", 2)
 	budget := c.ParamInt("budget", c.Pick(2, 2))
@@ -319,6 +336,10 @@ func c09Sched(c *vrep.Ctx) {
 		if scen >= 8 {
 			// a document with fewer tokens than the classifier's q: indexed with a q of its own
 			cl.AddContent("Supplement", "D", "preface.txt", []byte("pp"))
+		}
+		if scen >= 13 {
+			// a document of 4 300 words (twice the size of what the library may treat as a big comparison)
+			cl.AddContent("License", "G", "license.txt", c09BigDoc())
 		}
 		switch c.Param("trace", "off") {
 		case "wildcard":
@@ -344,11 +365,13 @@ func c09Sched(c *vrep.Ctx) {
 	// (anything keyed by a prefix, a length or a cheap digest of the input cannot tell them apart)
 	head := strings.Repeat("zqhead zqfill ", 360)
 	inputs = append(inputs, []byte(head+"aa bb cc dd ee ff gg hh"), []byte(head+"kk ll mm nn oo zqpadxxx"))
+	// input 10: the big document itself; input 11: the same with a word changed in the middle
+	inputs = append(inputs, c09BigDoc(), []byte(strings.Replace(string(c09BigDoc()), " wcbb ", " zqchanged ", 1)))
 	if len(inputs[8]) != len(inputs[9]) || len(head) < 4200 {
 		panic("c09: the twin inputs must have equal length and a common head of more than 4 KB")
 	}
 	// scenario: which inputs the threads use (forced collisions first)
-	scens := [][]int{{0, 0}, {0, 1}, {1, 3}, {3, 2}, {0, 1, 3}, {1, 1, 0}, {4, 4}, {4, 5}, {6, 0}, {6, 6}, {7, 4}, {8, 9}, {9, 8, 8}}
+	scens := [][]int{{0, 0}, {0, 1}, {1, 3}, {3, 2}, {0, 1, 3}, {1, 1, 0}, {4, 4}, {4, 5}, {6, 0}, {6, 6}, {7, 4}, {8, 9}, {9, 8, 8}, {10, 11}, {10, 10}}
 	pick := scens[scen%len(scens)]
 	if nthreads < len(pick) {
 		pick = pick[:nthreads]
